@@ -294,51 +294,120 @@ func init() {
 	})
 
 	registerGen("c06.alias", func(g *Gen) {
-		generic := []string{"unmarshal", "unmarshal", "get", "get", "copystring", "decoder_copystring", "unmarshal_std", "unmarshalstring", "getfromstring"}
-		typed := []string{"unmarshal_t", "copystring_t", "decoder_copystring_t", "unmarshalstring_t"}
+		entries := []string{"unmarshal", "unmarshal", "unmarshal", "unmarshalstring", "decoder"}
+		cfgs := []string{"def", "std", "cs", "csnum", "num"}
+		dests := []string{"iface", "mapiface", "sliface", "typed", "nodes", "wrap"}
+		gets := []string{"get", "get", "getcopy", "getref", "getfromstring"}
+		q := func(n int) string { return string(ownQuote(nil, string(ownPlain(g, n)))) }
+		num := func() string {
+			return []string{strconv.Itoa(g.R.Intn(1000000)), "-" + strconv.Itoa(1000+g.R.Intn(100000)), "12345.6789", "1e21", "0"}[g.R.Intn(5)]
+		}
+		// a generic value with plain strings, numbers, nested containers and keys
+		var gen func(d int) string
+		gen = func(d int) string {
+			switch k := g.R.Intn(10); {
+			case k < 3 || d <= 0:
+				return q(20)
+			case k < 5:
+				return num()
+			case k < 7:
+				n := 1 + g.R.Intn(3)
+				xs := make([]string, n)
+				for i := range xs {
+					xs[i] = gen(d - 1)
+				}
+				return "[" + strings.Join(xs, ",") + "]"
+			case k < 9:
+				n := 1 + g.R.Intn(3)
+				xs := make([]string, n)
+				for i := range xs {
+					xs[i] = `"k` + strconv.Itoa(i) + string(ownPlain(g, 4)) + `":` + gen(d-1)
+				}
+				return "{" + strings.Join(xs, ",") + "}"
+			}
+			return []string{"null", "true", "false", string(ownQuote(nil, "esc\"\n"+string(ownPlain(g, 5))))}[g.R.Intn(4)]
+		}
 		for i := 0; i < g.N; i++ {
-			var doc []byte
-			api := ""
-			if g.R.Intn(3) == 0 {
-				api = typed[g.R.Intn(len(typed))]
-				q := func(n int) string { return string(ownQuote(nil, string(ownPlain(g, n)))) }
-				var sb strings.Builder
-				sb.WriteString(`{"a":` + q(20) + `,"b":[`)
-				for k, n := 0, g.R.Intn(4); k < n; k++ {
-					if k > 0 {
-						sb.WriteByte(',')
-					}
-					sb.WriteString(q(12))
-				}
-				sb.WriteString(`],"m":{`)
-				for k, n := 0, g.R.Intn(3); k < n; k++ {
-					if k > 0 {
-						sb.WriteByte(',')
-					}
-					sb.WriteString(`"k` + strconv.Itoa(k) + string(ownPlain(g, 3)) + `":` + q(10))
-				}
-				sb.WriteString(`},"r":`)
-				sb.Write(parseOwnVal(ownValTok(g, 30, 2, false)).render(nil))
-				if g.R.Intn(3) == 0 {
-					sb.WriteString(`,"n":` + strconv.Itoa(g.R.Intn(1000000)))
-				}
-				sb.WriteString(`,"y":"aGVsbG8gd29ybGQ=","i":`)
-				sb.Write(parseOwnVal(ownValTok(g, 40, 2, false)).render(nil))
-				sb.WriteByte('}')
-				doc = []byte(sb.String())
+			api, doc := "", ""
+			if g.R.Intn(5) == 0 {
+				api = gets[g.R.Intn(len(gets))] + ".def.node"
+				doc = gen(3)
 			} else {
-				api = generic[g.R.Intn(len(generic))]
-				v := parseOwnVal(ownValTok(g, 8+g.R.Intn(120), 3, false))
-				if g.R.Intn(2) == 0 {
-					// plain strings are the ones a decoder may leave pointing into its input
-					v = &ownVal{k: okArr, xs: []*ownVal{{k: okStr, s: string(ownPlain(g, 40))}, v, {k: okMap1, s: string(ownPlain(g, 8)), xs: []*ownVal{{k: okStr, s: string(ownPlain(g, 16))}}}}}
+				dest := dests[g.R.Intn(len(dests))]
+				api = entries[g.R.Intn(len(entries))] + "." + cfgs[g.R.Intn(len(cfgs))] + "." + dest
+				switch dest {
+				case "iface":
+					doc = gen(3)
+				case "mapiface":
+					doc = `{"n":` + num() + `,"s":` + q(12) + `,"v":` + gen(2) + `}`
+				case "sliface":
+					doc = `[` + num() + `,` + q(12) + `,` + gen(2) + `]`
+				case "typed":
+					var sb strings.Builder
+					sb.WriteString(`{"a":` + q(20) + `,"b":[`)
+					for k, n := 0, g.R.Intn(4); k < n; k++ {
+						if k > 0 {
+							sb.WriteByte(',')
+						}
+						sb.WriteString(q(12))
+					}
+					sb.WriteString(`],"m":{`)
+					for k, n := 0, g.R.Intn(3); k < n; k++ {
+						if k > 0 {
+							sb.WriteByte(',')
+						}
+						sb.WriteString(`"k` + strconv.Itoa(k) + string(ownPlain(g, 3)) + `":` + q(10))
+					}
+					sb.WriteString(`},"r":` + gen(2))
+					if g.R.Intn(3) == 0 {
+						sb.WriteString(`,"n":` + num())
+					}
+					sb.WriteString(`,"y":"aGVsbG8gd29ybGQ=","s2":` + q(8) + `}`)
+					doc = sb.String()
+				case "nodes":
+					doc = `{"nd":` + gen(2) + `,"pn":` + gen(2) + `}`
+				case "wrap":
+					doc = `{"i":` + gen(2) + `,"mi":{"n":` + num() + `,"s":` + q(9) + `},"si":[` + num() + `,` + gen(1) + `]}`
 				}
-				doc = v.render(nil)
 			}
-			if g.R.Intn(20) == 0 && len(doc) > 1 {
-				doc = doc[:g.R.Intn(len(doc))] // malformed: truncated
+			b := []byte(doc)
+			if g.R.Intn(25) == 0 && len(b) > 1 {
+				b = b[:g.R.Intn(len(b))] // malformed: truncated
 			}
-			g.Emit("alias", api, hexArg(doc))
+			g.Emit("alias", api, hexArg(b))
+		}
+	})
+
+	// every capacity 0..80 for values that sit at the extreme digit counts of every integer width
+	registerGen("c06.encgrid", func(g *Gen) {
+		vals := []string{
+			"ja-128;", "ja-100;", "ja-99;", "ja127;", "ja-1;", "jb-32768;", "jb32767;", "jc-2147483648;", "jc2147483647;",
+			"jd-9223372036854775808;", "jd9223372036854775807;", "je255;", "jf65535;", "jg4294967295;", "jh18446744073709551615;",
+			"t", "f", "n", "qa-128,-128,-100,127;", "qb-32768,-32768;", "qc-2147483648;", "qd-9223372036854775808,1;",
+			"qe255,255,0;", "qh18446744073709551615;", "qa;",
+			"k-128;-32768;-2147483648;-9223372036854775808;255;65535;4294967295;18446744073709551615;t",
+			"k-100;-1;0;1;9;99;999;9999;f",
+			"[ja-128;tjb-32768;]", "[[ja-128;][f[jc-2147483648;]]]", "m6b;ja-128;", "m6b6b;[jd-9223372036854775808;t]",
+			"[s61;ja-128;s;ja-100;]", "F3ff8000000000000;", "Fffefffffffffffff;", "F0000000000000001;", "F4415af1d78b58c40;",
+			"G7f7fffff;", "G00000001;", "[F3ff8000000000000;ja-128;Gc2c80000;]", "[tfn]",
+		}
+		caps := 81
+		if g.Tier == "quick" {
+			// the whole grid for the integer extremes, every other capacity parity for the rest
+			caps = 81
+		}
+		for vi, v := range vals {
+			for c := 0; c < caps; c++ {
+				if g.Tier == "quick" && vi >= 26 && (c+vi)%2 == 1 {
+					continue
+				}
+				g.Emit("encinto", strconv.Itoa(c), "-", "0", v)
+			}
+			// a few dirty prefixes shift the position at which each number is emitted
+			for k := 0; k < 6; k++ {
+				prior := ownDirtyPrior(g, 5)
+				g.Emit("encinto", strconv.Itoa(len(prior)+g.R.Intn(40)), hexArg(prior), "0", v)
+			}
 		}
 	})
 }
